@@ -146,6 +146,7 @@ type FS struct {
 	procs   map[string]*Proc
 	nextIno int
 	tmpSeq  uint64
+	kills   int
 
 	// Yield, when set, is called before each operation outside the lock. The scheduler parks the
 	// calling goroutine there.
@@ -357,6 +358,7 @@ func (f *FS) begin(p *Proc, kind OpKind, sub, sub2 string, n int) (op *Op, act A
 func (f *FS) kill(p *Proc) {
 	p.Frozen = true
 	p.Killed = true
+	f.kills++
 	if f.LogOps {
 		p.Log = append(p.Log, "  KILLED")
 	}
@@ -376,6 +378,7 @@ func (f *FS) end(op *Op, err error) {
 // ignores them (frozen), which is what a SIGKILL amounts to for the disk.
 func RunProc(fn func()) *ProcPanic {
 	done := make(chan *ProcPanic, 1)
+	kills0 := killCount()
 	go func() {
 		finished := false
 		defer func() {
@@ -384,6 +387,12 @@ func RunProc(fn func()) *ProcPanic {
 				return
 			}
 			if r := recover(); r != nil { // nil when Goexit
+				if killCount() != kills0 {
+					// a panic raised by deferred functions while a killed process unwinds is an
+					// artefact of the kill model (a real SIGKILL runs no deferred functions)
+					done <- nil
+					return
+				}
 				done <- &ProcPanic{Val: r, Stack: debug.Stack()}
 				return
 			}
@@ -393,6 +402,16 @@ func RunProc(fn func()) *ProcPanic {
 		finished = true
 	}()
 	return <-done
+}
+
+func killCount() int {
+	f := current()
+	if f == nil {
+		return 0
+	}
+	f.mu.Lock()
+	defer f.mu.Unlock()
+	return f.kills
 }
 
 // ProcPanic is a panic raised inside a simulated process, with the stack it was raised on.
